@@ -183,8 +183,16 @@ def run_one(rec, G, inputs, tag, trace, relation=True, unit=None):
         if not tr.ok:
             tr = None
     desc = b.descs[-1]
-    entries = [None]
+    # every rule is an entry point too: without the start rule's leading skip, an entry on ignorable
+    # text shows exactly what the first literal does (e.g. an empty regex match still skips)
+    entries = [e for e in work.rule_entries(G) if e is not None and not e.startswith('_')
+               and e not in ('Space', 'Under', 'Comment', 'Tilde') and e.lower() != 'start'][:2]
     for text in inputs:
+        for entry in entries:
+            for pos in (0, 1):
+                if pos <= len(text):
+                    diff.compare(rec, b, text, entry, pos, True, monitor='E1', monitors=('value',),
+                                 extra_case=dict(tag=str(tag)))
         r = diff.compare(rec, b, text, None, monitor='E1', monitors=('value',), extra_case=dict(tag=str(tag)))
         if r is None:
             continue
